@@ -268,6 +268,9 @@ def generate(rng, tier):
             init["w"] = 3
     if "mreq" in fs and (plan["mode"] or rng.random() < 0.5):
         init["mreq"] = rng.choice([6, "7"])
+    if plan["base"] == "schema" and o.get("addition") in (True, "leaf") and rng.random() < 0.4:
+        # an additional (undeclared) item from the start: the initialization makes it readable as an attribute too
+        init[rng.choice(["x1", "x2"])] = {"$r": pool.next()} if o["addition"] == "leaf" else rng.choice([1, "u", [1]])
     plan["init"] = init
     init_pids = list(pool.used)
     targets = [k for k in fs] + (["wd", "wd"] if plan.get("wd") else []) + (["w2"] if "w" in fs else []) + (["nkind"] if "num" in fs and rng.random() < 0.3 else [])
@@ -467,6 +470,15 @@ def check_invariants(plan, inst, initial, res, opname, field, current=True, touc
                 out.append(("I4", k, f"{k} present as key but not readable as attribute"))
             elif in_a and not in_k and k not in props:
                 out.append(("I4", k, f"{k} absent from the keys but still reads back {v.attrs[k]!r} as attribute"))
+    if is_schema:
+        # ... also for the additional (undeclared) items, which the initialization makes readable as attributes too
+        known_att = {info["att"] for info in FIELD_INFO.values()}
+        for key, val in v.extra.items():
+            if key in inst.__dict__ and (inst.__dict__[key] != val or type(inst.__dict__[key]) is not type(val)):
+                out.append(("I4", "extra", f"views disagree on the additional item {key}: key {val!r} vs attribute {inst.__dict__[key]!r}"))
+        for key, val in inst.__dict__.items():
+            if not key.startswith("_") and key not in known_att and key not in v.extra and not dict.__contains__(inst, key):
+                out.append(("I4", "extra", f"the additional item {key} is gone from the keys but still reads back {val!r} as attribute"))
     # I5 dependants recomputed
     if "total" in fs and is_schema:
         if "req" in v.keys and "pos" in v.keys and conforms("req", v.keys["req"]) and conforms("pos", v.keys["pos"]):
